@@ -189,6 +189,7 @@ class Endpoint:
             return
         port = int(parts[1].rsplit(":", 1)[1])
         up = socket.create_connection(("127.0.0.1", port), timeout=3.0)
+        rec["upstream_port"] = port  # (the check waits for the record of this connection, too)
         try:
             conn.sendall(b"HTTP/1.1 200 Connection established\r\n\r\n")
             first = True
